@@ -41,6 +41,16 @@ theorem parse_print (serials : List Str) (dongle : Str) (devid : Nat) (hd : Dong
       .ok ⟨devid, ch, rate.value, beBytes5 (hexValue A), limit.map Int.ofNat⟩ :=
   parse_print_aux serials dongle devid hd ch hch rate A hA1 hA10 hhex limit hl
 
+/-- **Shortened addresses are zero-padded on the left**: an address of fewer than ten hex digits parses exactly like the
+same address written out with leading zeros. -/
+theorem short_address_zero_padded (serials : List Str) (dongle : Str) (devid : Nat) (hd : Dongle serials dongle devid)
+    (ch : Nat) (hch : ch ≤ 125) (rate : Rate)
+    (A : Str) (hA1 : 1 ≤ A.length) (hA10 : A.length ≤ 10) (hhex : ∀ c ∈ A, IsHex c)
+    (limit : Option Nat) (hl : ∀ l, limit = some l → l < 10 ^ 4300) :
+    parseUri serials (printUri dongle ch rate A limit) =
+      parseUri serials (printUri dongle ch rate (List.replicate (10 - A.length) '0' ++ A) limit) :=
+  short_address_aux serials dongle devid hd ch hch rate A hA1 hA10 hhex limit hl
+
 /-- **Query options.**  Other options may surround the rate limit (`?a=b&rate_limit=100&c=d`); the first `rate_limit`
 counts.  Options are written without escapes (`OptOk`: no `& = + % #`, non-empty value). -/
 theorem parse_print_query_options (serials : List Str) (dongle : Str) (devid : Nat) (hd : Dongle serials dongle devid)
@@ -279,6 +289,7 @@ example : beBytes5 (hexValue "a1B2".toList) = [0, 0, 0, 0xA1, 0xB2] := by decide
 example : parseUri [] "radio://3/80/250K/a1B2?rate_limit=5".toList = .ok ⟨3, 80, 0, [0, 0, 0, 0xA1, 0xB2], some 5⟩ := by decide
 example : Dongle ["ABCDEF0123".toList, "E7E7E7E7E7".toList] "e7e7e7E7e7".toList 1 := .serial _ _ (by decide) (by decide) (by decide)
 example : Dongle [] (natStr 999999999) 999999999 := .index _ (by decide)
+example : Dongle [] "007".toList 7 := .digits "007".toList (by decide) (by decide) (by decide)
 example : ∀ c ∈ "E7e7".toList, IsHex c := by decide
 example : OptOk ("safelink".toList, "1".toList) ∧ "safelink".toList ≠ "rate_limit".toList := by unfold OptOk; decide
 example : queryText [("a".toList, "b".toList), ("rate_limit".toList, natStr 100)] = "a=b&rate_limit=100".toList := by decide
